@@ -5,7 +5,7 @@ import numpy as np
 import nets
 
 PID = "C14"
-THEOREMS = ["downstream_spec", "upstream_sum_spec", "fill_up_spec", "fill_down_pairs", "merge_fold_closed", "fill_down_spec", "window_down_spec",
+THEOREMS = ["downstream_spec", "upstream_sum_spec", "upstream_sum_nodata_refuted", "fill_up_spec", "fill_down_pairs", "merge_fold_closed", "fill_down_spec", "window_down_spec",
             "window_up_spec", "stream_distance_spec", "hand_spec", "floodplain_spec", "gen_upstream_sum_eq", "gen_fillnodata_upstream_eq", "gen_fillnodata_downstream_eq", "gen_hand_eq", "gen_stream_distance_eq", "gen_floodplains_eq", "gen__window_cells"]
 RULE = ("loop-free closed graphs on n<=4 cells (n<=5 thorough) x small integer fields with nodata x every operator "
         "(downstream, upstream_sum, fillnodata up / down min,max,sum, window n=0..3 with and without stream-order "
@@ -56,6 +56,8 @@ def _cases_for(ds, rng, tag, api=False):
     full = [rng.randint(1, 6) for _ in range(n)]
     yield {"k": 1401, "args": [ds, data], "group": f"{tag}-downstream"}
     yield {"k": 1402, "args": [ds, full, [nodata]], "group": f"{tag}-upstream_sum"}
+    if rng.random() < 0.3:      # a field that holds the missing value (known finding F14)
+        yield {"k": 1402, "args": [ds, data, [nodata]], "group": f"{tag}-upstream_sum-nodata"}
     yield {"k": 1403, "args": [ds, sq, data, [nodata], [0], [0]], "group": f"{tag}-fill-up"}
     yield {"k": 1403, "args": [ds, sq, data, [nodata], [1], [rng.randrange(3)]], "group": f"{tag}-fill-down"}
     upa = _uparea(ds)
@@ -271,6 +273,17 @@ def oracle(case, out):
         return None if out == [exp] else ("downstream", f"expected {exp} got {out}")
     if k == 1402:
         exp = [sum(a[1][c] for c in range(n) if ds[c] == j and c != j) for j in range(n)]
+        nod = a[2][0]
+        if nod in a[1]:
+            # the field holds the missing value: what a cell with a missing value (or with a missing value among its direct
+            # upstream cells) should get is not documented, but a cell that is valid and whose direct upstream cells all are
+            # must get the plain sum, whatever is missing elsewhere
+            for j in range(n):
+                if ds[j] >= 0 and a[1][j] != nod and all(a[1][c] != nod for c in range(n) if ds[c] == j and c != j):
+                    if len(out) != 1 or len(out[0]) != n or out[0][j] != exp[j]:
+                        return ("upstream_sum:nodata-in-field", f"cell {j} and its direct upstream cells are valid, expected {exp[j]} "
+                                f"got {out[0][j] if out and len(out[0]) == n else out}; ds={ds} data={a[1]} nodata={nod}")
+            return None
         return None if out == [exp] else ("upstream_sum", f"expected {exp} got {out}")
     if k == 1403:
         data, nodata = a[2], a[3][0]
